@@ -237,6 +237,27 @@ def _m8(ctx):
     return r
 
 
+ECONST_CLASSES = {
+    'C01': (('Geodesic', 'GeodesicExact'), 2, 12), 'C02': (('Geodesic', 'GeodesicExact'), 2, 12),
+    'C03': (('Geodesic', 'GeodesicExact'), 2, 12), 'C12': (('Geodesic', 'GeodesicExact'), 2, 12),
+    'C06': (('TransverseMercator', 'TransverseMercatorExact'), 2, 9), 'C07': (('Geocentric',), 1, 4),
+    'C09': (('Rhumb', 'AuxLatitude', 'DAuxLatitude'), 3, 10),
+    'C11': (('PolarStereographic', 'LambertConformalConic', 'AlbersEqualArea'), 7, 30),
+    'C15': (('AuxLatitude', 'Ellipsoid', 'DAuxLatitude'), 3, 12), 'C13': (None, 17, 80),
+}
+
+
+def _econst(ctx, prop):
+    from .rules import econst
+    if prop not in ECONST_CLASSES:
+        return []
+    cl, nc, nm = ECONST_CLASSES[prop]
+    r, a, b = econst.rule_ECONST(ctx, None if cl is None else {NSP + c for c in cl})
+    r.floor('constructors taking (a, f)', a, nc)
+    r.floor('conventionally named members', b, nm)
+    return [r]
+
+
 def _m8b(ctx):
     from .rules import sibling
     r, npairs, ncalls = sibling.rule_M8b(ctx)
@@ -488,6 +509,7 @@ def run(prop, tier):
     from . import controls
     ctx = Ctx(tier=tier)
     results = CHECKS[prop](ctx)
+    results += _econst(ctx, prop)
     results += _lint(ctx, prop)
     rules = sorted({ALIAS.get(r.rule, r.rule) for r in results})
     _extra[prop] = {'positive_controls': controls.run_controls(rules)}
